@@ -194,6 +194,10 @@ func (huc *htpasswdUserCache) Close() {
 }
 
 func (huc *htpasswdUserCache) Match(username string, password string) bool {
+	// the user file could not be loaded, nobody is authorized.
+	if huc.userFileObject == nil {
+		return false
+	}
 	return huc.userFileObject.Match(username, password)
 }
 
